@@ -365,10 +365,9 @@ def run_c20(t, tier, res):
                         okay = L >= opt["min"] and (not opt["max"] or L <= opt["max"])
                         if not okay:
                             xs = [pcfg.grammar[n][i]["values"] for n, i in item["pt"] if n[0] == "X"]
-                            slack_lo = sum(min(len(v) for v in vals) - 1 for vals in xs)
-                            slack_hi = sum(max(len(v) for v in vals) - 1 for vals in xs)
-                            adj_ok = any((L - s) >= opt["min"] and (not opt["max"] or (L - s) <= opt["max"])
-                                         for s in range(slack_lo, slack_hi + 1)) if xs else False
+                            import itertools
+                            slacks = {sum(c) for c in itertools.product(*[sorted({len(v) - 1 for v in vals}) for vals in xs])} if xs else set()
+                            adj_ok = any((L - s) >= opt["min"] and (not opt["max"] or (L - s) <= opt["max"]) for s in slacks)
                             key = "edit_length:X1-counted-as-1" if adj_ok else None
                             res.violate("C20", "guess_length_outside_bounds", {
                                 "guess": g, "length": L, "min": opt["min"], "max": opt["max"], "pt": repr(item["pt"])}, key=key)
